@@ -30,6 +30,11 @@ def _compile(src_path, deps, rmeta, out_dir):
 
 def run_witness(ctx, name, prog_target):
     """evaluates witness/<name>.rs; records one obligation per marked line + one for the twin"""
+    if getattr(ctx, "_importing", False):
+        return          # rules of this property are being imported by another one: its type-level witnesses are not part of the import
+    if prog_target is None:
+        # the facts of this tree were cached by a check that did not keep the build directory: build it now
+        prog_target = extract.extract(ctx.cfg, keep_target=True)["target"]
     path = os.path.join(WDIR, name + ".rs")
     if not os.path.exists(path):
         ctx.missing("R-TYPE", name, "witness", "witness file %s missing" % path); return
